@@ -221,7 +221,7 @@ def tabMode (m : Mode Rat) : TMode Q :=
 
 /-- zero threshold of `truncated_svd`, re-extracted from round.py on every run (pinned by C04.constants_from_source) -/
 def zeroThr : Rat :=
-  let e := TN.Generated.floats_round_truncated_svd.getD 0 (0, 1)
+  let e := TN.Generated.floats_round_truncated_svd.getD 1 (0, 1)
   mkRat e.1 e.2
 
 /-! commands -/
